@@ -1,4 +1,5 @@
 import NodisVerif.Proofs.C09Writers2
+import NodisVerif.Proofs.ZAddPairs
 /-
   C09 "writers signal" table, part 3: sorted-set family, and the example showing that the Pebble
   hypothesis is necessary (see C09Writers.lean for the definitions and the Frame calculus).
@@ -154,6 +155,43 @@ theorem frame_zaddCmp (f : ZSet → Bytes → F64 → ZSet × Bool) (key m : Byt
     · split
       · exact (h.setVal hp _ _).finish _ _
       · exact h
+
+/-- zAddPairs (the ZADD command): ONE transaction for all pairs. The key is signalled whenever a member was written;
+    a key created by the command (no XX) always has its first pair written, so it is signalled too -/
+theorem frame_zaddPairs (key : Bytes) (nx xx gt lt ch : Bool) (pairs : List (Bytes × F64)) :
+    Frame [] s (Api.zaddPairs s now key nx xx gt lt ch pairs).1 := by
+  have hfe : ∀ (ops : List (Bytes × F64)) (S : MState), Frame [] S (ops.foldl (fun s (p : Bytes × F64) =>
+      emit s (Api.opZAdd key p.1 p.2)) S) :=
+    fun ops S => frame_foldl_state _ (fun s x => frame_emit s _) ops S
+  unfold Api.zaddPairs
+  split
+  · exact Frame.refl _ _
+  · next hne =>
+    cases xx with
+    | true =>
+      simp only [if_true]
+      wk_none s now key
+      split
+      · exact h
+      · split
+        · exact h
+        · split
+          · exact h
+          · exact ((h.setVal hp _ _).signal _).trans0 (hfe _ _)
+    | false =>
+      simp only [Bool.false_eq_true, if_false, Bool.false_and]
+      wk_some s now key (Val.zset DsZSet.empty)
+      · split
+        · exact h
+        · split
+          · exact h
+          · exact ((h.setVal hp _ _).signal _).trans0 (hfe _ _)
+      · simp only [asZSet_of_valOf hv]
+        have hne' : pairs ≠ [] := by intro h0; rw [h0] at hne; exact hne rfl
+        have hops := Proofs.ZAddPairs.zaddFold_empty_ops_ne nx gt lt pairs hne'
+          { z := DsZSet.empty, added := 0, changed := 0, ops := [] } rfl
+        rw [if_neg (by simpa using hops)]
+        exact ((h.setVal hp _ _).signal _).trans0 (hfe _ _)
 
 theorem frame_zincrby (key m : Bytes) (delta : F64) : Frame [] s (Api.zincrby s now key m delta).1 := by
   unfold Api.zincrby
